@@ -122,6 +122,9 @@ def run(ctx):
         for n in A.walk_local(g):
             if isinstance(n, ast.ListComp) and isinstance(n.elt, ast.Subscript) and A.int_value(n.elt.slice) == 0:
                 idx_ok = True
+            if isinstance(n, ast.ListComp) and isinstance(n.generators[0].target, ast.Tuple) and len(n.generators[0].target.elts) == 2 \
+                    and isinstance(n.generators[0].target.elts[0], ast.Name) and A.is_name(n.elt, n.generators[0].target.elts[0].id):
+                idx_ok = True      # [index for index, _ in run]
         ok_pos = ok_key and idx_ok
     elif not gb:
         raise AnalysisError('undecidable shape: Dataset.groupby does not use itertools.groupby')
@@ -135,6 +138,9 @@ def run(ctx):
         if isinstance(n, ast.Call) and isinstance(n.func, ast.Attribute) and n.func.attr == 'extend' \
                 and isinstance(n.func.value, ast.Subscript):
             acc_ok = True
+        if isinstance(n, ast.Assign) and isinstance(n.targets[0], ast.Subscript) and isinstance(n.value, ast.BinOp) \
+                and isinstance(n.value.op, ast.Add) and A.src(n.value.left) == A.src(n.targets[0]):
+            acc_ok = True          # groups[k] = groups[k] + indices
     dd = any(isinstance(n, ast.Call) and (A.dotted(n.func) or '').endswith('defaultdict') and n.args
              and A.is_name(n.args[0], 'list') for n in A.walk_local(g))
     rep.ob('GB', K.key(base, 'groupby', 'runs-of-one-id-are-accumulated'), acc_ok and dd, g,
